@@ -71,6 +71,7 @@ impl Check for C14 {
 
     fn generate(&self, rng: &mut Rng, _idx: usize, _tier: Tier) -> Scn {
         let inside = rng.chance(0.4);
+        let heavy = !inside && rng.chance(0.03);
         let holes = if inside { 0 } else if rng.chance(0.4) { 1 + rng.below(2) } else { 0 };
         let mut cfg = GenCfg::swarm(rng, holes);
         cfg.size = 4 + rng.below(25);
@@ -108,7 +109,9 @@ impl Check for C14 {
         };
         let gc = if inside {
             GcSched { force_at_suspend: true, ..GcSched::threshold(*rng.pick(&[0u32, 1, 3, 100])) }
-        } else if rng.chance(0.5) {
+        } else if heavy || rng.chance(0.5) {
+            // (the heavy-garbage runs keep automatic collection off: the host's collect() after
+            // each run is the one cycle that has to reclaim everything)
             GcSched::off()
         } else {
             random_gc(rng)
@@ -128,6 +131,12 @@ impl Check for C14 {
             if let Some(first) = case.tree.kids.first_mut() {
                 first.pre = format!("import {{ big as __big }} from \"lib:bad\";\n{}", first.pre);
             }
+        }
+        if heavy {
+            // far more garbage per run than any batch size a collector might work in: about 20 000
+            // short-lived objects, collected only by the host's collect() when automatic collection is off
+            let at = 3.min(case.tree.kids.len());
+            case.tree.kids.insert(at, Node::leaf("{ let __acc: number = 0; for (let i = 0; i < 20000; i++) { const t: any = { i: i }; __acc += t.i & 1; } __log.push(\"heavy:\" + __acc); }"));
         }
         let reregister_lib = !inside && rng.chance(0.3);
         Scn { case, form, gc, tape: Tape::random(rng, 8), fuel: 400_000, unwrapped, reregister_lib }
